@@ -51,6 +51,7 @@ type Ctx struct {
 	ephemeral      map[string]bool
 	constTables    map[*ssa.Global]bool
 	splitTests map[string]splitTest
+	lexRolesDone *lexRoles
 	xIndex         int // which execution site of the commands the run-loop model is built around (see runSites)
 	tableCallsDone bool
 	tableCallSites []string
